@@ -54,10 +54,27 @@ func (v *Verifier) evalCall(fr *Frame, st *State, x *ast.CallExpr) Val {
 				panic(unsupportedf(x.Pos(), "ite over incompatible values"))
 			}
 			return r
+		case "length":
+			return v.evalBuiltin(fr, st, "length", x)
+		case "suffixOf": // suffixOf(s, t): s is t[k:] for some 0 <= k <= len(t)
+			a := v.evalSpec(fr, st, x.Args[0]).(SliceVal)
+			b := v.evalSpec(fr, st, x.Args[1]).(SliceVal)
+			return Scalar{c.And(c.Eq(a.Ref, b.Ref), v.iLe(b.Off, a.Off), c.Eq(v.iAdd(a.Off, a.Len), v.iAdd(b.Off, b.Len))), types.Typ[types.Bool]}
+		case "sameSlice":
+			a := v.evalSpec(fr, st, x.Args[0]).(SliceVal)
+			b := v.evalSpec(fr, st, x.Args[1]).(SliceVal)
+			return Scalar{c.And(c.Eq(a.Ref, b.Ref), c.Eq(a.Off, b.Off), c.Eq(a.Len, b.Len)), types.Typ[types.Bool]}
+		case "fresh": // fresh(s): the backing array of s was allocated during this call
+			a := v.evalSpec(fr, st, x.Args[0]).(SliceVal)
+			return Scalar{c.ILt(c.Inti(0), a.Ref), types.Typ[types.Bool]}
 		case "disjoint": // disjoint(s, t): the two slices share no element
 			a := v.evalSpec(fr, st, x.Args[0]).(SliceVal)
 			b := v.evalSpec(fr, st, x.Args[1]).(SliceVal)
 			return Scalar{c.Or(c.Not(c.Eq(a.Ref, b.Ref)), v.iLe(v.iAdd(a.Off, a.Len), b.Off), v.iLe(v.iAdd(b.Off, b.Len), a.Off)), types.Typ[types.Bool]}
+		case "sent", "sentMsgs", "sentByte", "rpos", "inByte", "atomic":
+			if r, ok := v.ghostBuiltin(fr, st, id.Name, x); ok {
+				return r
+			}
 		case "bits": // bits(x, hi, lo): extract
 			s := v.asScalar(v.evalSpec(fr, st, x.Args[0]), x.Pos())
 			hi := v.constInt(fr, st, x.Args[1])
@@ -68,6 +85,11 @@ func (v *Verifier) evalCall(fr *Frame, st *State, x *ast.CallExpr) Val {
 				gw *= 2
 			}
 			return Scalar{c.ZeroExt(c.Extract(hi, lo, s.T), gw), uintTypeOfWidth(gw)}
+		}
+	}
+	if id, ok := x.Fun.(*ast.Ident); ok && v.lookupObj(fr, id) == nil {
+		if def := v.prog.defs[fr.pkg.PkgPath+"."+id.Name]; def != nil {
+			return v.expandDef(fr, st, def, x)
 		}
 	}
 	info := fr.pkg.TypesInfo
@@ -223,9 +245,13 @@ func (v *Verifier) evalQuant(fr *Frame, st *State, x *ast.CallExpr, forall bool)
 			bvs = append(bvs, ts[k])
 		}
 		val := v.eng.valFromLeaves(q.sh, ts)
-		var wf []*Term
-		v.eng.wellFormed(val, &wf, false)
-		ranges = append(ranges, wf...)
+		// quantified integers in hybrid/math mode range over all mathematical integers
+		// (consistently where the formula is assumed and where it is proved)
+		if _, isScalar := val.(Scalar); !isScalar {
+			var wf []*Term
+			v.eng.wellFormed(val, &wf, false)
+			ranges = append(ranges, wf...)
+		}
 		fr.ghost[q.name] = val
 	}
 	if len(boolVars) > 6 {
@@ -319,8 +345,11 @@ func (v *Verifier) ufResult(name string, res *types.Tuple, args []*Term) Val {
 func (v *Verifier) evalBuiltin(fr *Frame, st *State, name string, x *ast.CallExpr) Val {
 	c := v.eng.C
 	switch name {
-	case "len", "cap":
+	case "len", "cap", "length":
 		a := v.eval(fr, st, x.Args[0])
+		if name == "length" {
+			name = "len"
+		}
 		switch s := a.(type) {
 		case SliceVal:
 			if name == "len" {
@@ -437,6 +466,9 @@ func (v *Verifier) evalBuiltin(fr *Frame, st *State, name string, x *ast.CallExp
 		v.fillSlice(st, sv, v.eng.zeroVal(sv.Sh.Elem))
 		return TupleVal{}
 	case "print", "println":
+		return TupleVal{}
+	case "close":
+		v.eval(fr, st, x.Args[0])
 		return TupleVal{}
 	}
 	panic(unsupportedf(x.Pos(), "builtin %s", name))
@@ -824,8 +856,9 @@ func shortFuncName(fn *types.Func) string {
 
 // ModTarget describes one entry of a modifies clause, resolved in some state.
 type ModTarget struct {
-	Loc      Loc    // a cell / field location (non-heap), or nil
-	HeapElem *Shape // element shape for heap ranges
+	Ghost    []string // ghost heap keys whose entry for Ref may change
+	Loc      Loc      // a cell / field location (non-heap), or nil
+	HeapElem *Shape   // element shape for heap ranges
 	Ref      *Term
 	Lo, Hi   *Term  // absolute index range [Lo, Hi)
 	ObjSh    *Shape // object heap target
@@ -844,6 +877,33 @@ func (v *Verifier) resolveModifies(cf *Frame, st *State, mods []ast.Expr, pos to
 }
 
 func (v *Verifier) resolveModTarget(cf *Frame, st *State, m ast.Expr, pos token.Pos) []ModTarget {
+	if ce, ok := m.(*ast.CallExpr); ok {
+		if id, ok := ce.Fun.(*ast.Ident); ok && len(ce.Args) == 1 {
+			var keys []string
+			switch id.Name {
+			case "chanlog":
+				keys = []string{gChanLen, gChanData, gChanMsgs}
+			case "stream":
+				keys = []string{gRdPos}
+			case "atomic":
+				keys = []string{gAtomic}
+			}
+			if keys != nil {
+				val := v.eval(cf, st, ce.Args[0])
+				var ref *Term
+				switch o := val.(type) {
+				case OpaqueVal:
+					ref = o.ID
+				case PtrVal:
+					ref = o.Ref
+				}
+				if ref == nil {
+					panic(unsupportedf(pos, "modifies %s(...): argument has no identity", id.Name))
+				}
+				return []ModTarget{{Ghost: keys, Ref: ref}}
+			}
+		}
+	}
 	switch x := m.(type) {
 	case *ast.ParenExpr:
 		return v.resolveModTarget(cf, st, x.X, pos)
@@ -900,6 +960,11 @@ func (v *Verifier) havocModifies(cf *Frame, st *State, pre *State, con *Contract
 	heapLeaf := map[string]LeafDesc{}
 	for _, t := range targets {
 		switch {
+		case t.Ghost != nil:
+			for _, k := range t.Ghost {
+				h := v.ghostHeap(st, k)
+				v.setGhostHeap(st, k, v.eng.C.Store(h, t.Ref, v.eng.C.Fresh("hvghost", h.Sort.Elem)))
+			}
 		case t.Loc != nil:
 			sh := locShape(t.Loc)
 			var wf []*Term
@@ -1037,4 +1102,37 @@ func constDiff(lo, hi *Term) (int64, bool) {
 		}
 	}
 	return 0, false
+}
+
+// expandDef evaluates a contract-level definition with its parameters bound to the arguments.
+func (v *Verifier) expandDef(fr *Frame, st *State, def *Contract, x *ast.CallExpr) Val {
+	if len(x.Args) != len(def.LParams) {
+		panic(unsupportedf(x.Pos(), "def %s: wrong number of arguments", def.Key))
+	}
+	saved := map[string]Val{}
+	had := map[string]bool{}
+	vals := make([]Val, len(x.Args))
+	for i, a := range x.Args {
+		vals[i] = v.evalSpec(fr, st, a)
+		if u, ok := vals[i].(UntypedConst); ok {
+			vals[i] = v.convert(fr, st, u, v.resolveType(fr, def.LParams[i].Type), x.Pos())
+		}
+	}
+	for i, p := range def.LParams {
+		if o, ok := fr.ghost[p.Name]; ok {
+			saved[p.Name] = o
+			had[p.Name] = true
+		}
+		fr.ghost[p.Name] = vals[i]
+	}
+	defer func() {
+		for _, p := range def.LParams {
+			if had[p.Name] {
+				fr.ghost[p.Name] = saved[p.Name]
+			} else {
+				delete(fr.ghost, p.Name)
+			}
+		}
+	}()
+	return v.evalSpec(fr, st, def.DefBody)
 }
